@@ -118,6 +118,10 @@ func ptBuildGPT(r *rand.Rand, s map[string]string) (t *gpt.Table, norm map[strin
 	arr := uint64(128 * 128 / lss)
 	first, last := 2+arr, sectors-2-arr
 	t = &gpt.Table{LogicalSectorSize: int(lss), PhysicalSectorSize: int(lss), ProtectiveMBR: true, GUID: randGUID(r)}
+	blank := s["guid"] == "blank"
+	if blank {
+		t.GUID = ""
+	}
 	idx := ptIndices(s["idx"], n)
 	var ents []map[string]any
 	span := uint64(1)
@@ -138,6 +142,9 @@ func ptBuildGPT(r *rand.Rand, s map[string]string) (t *gpt.Table, norm map[strin
 		attr := map[string]uint64{"zero": 0, "bit0": 1, "bit63": 1 << 63, "all": ^uint64(0)}[s["attr"]]
 		name := ptNames(s["name"])
 		p := &gpt.Partition{Index: idx[i], Start: start, Type: gpt.Type(typ), Name: name, GUID: randGUID(r), Attributes: attr}
+		if blank {
+			p.GUID = ""
+		}
 		switch s["spell"] {
 		case "startend":
 			p.End = end
@@ -323,6 +330,17 @@ func ptExec(tp ptTuple, seed int64) map[string]any {
 		return ev
 	}
 	ev["res"] = "ok"
+	if tp.K == "gpt" && tp.S["guid"] == "blank" {
+		// the identity is whatever Write generated and reports through the table it was given
+		norm["guid"] = strings.ToUpper(gt.GUID)
+		byIdx := map[int]string{}
+		for _, p := range gt.Partitions {
+			byIdx[p.Index] = strings.ToUpper(p.GUID)
+		}
+		for _, e := range norm["parts"].([]map[string]any) {
+			e["guid"] = byIdx[e["idx"].(int)]
+		}
+	}
 	ev["rd"] = ptReadBack(d, lss)
 	ev["raw"] = ptRaw(d, tp.K, lss)
 	// GetPartition ranges on a freshly opened disk
@@ -367,7 +385,7 @@ func ptExec(tp ptTuple, seed int64) map[string]any {
 	fsx.Catch(func() {
 		var err error
 		if tp.K == "gpt" {
-			err = cloneGPT(gt).Write(d2, size)
+			err = cloneGPT(gt).Write(d2, size) // gt now carries the GUIDs of the first write
 		} else {
 			err = mt.Write(d2, size)
 		}
